@@ -39,7 +39,7 @@ PROPS['C12'] = dict(
 
 PROPS['C15'] = dict(
     level='proof',
-    units=['meta', 'db'],
+    units=['meta', 'db', 'open'],
     kani_quick=['layout', 'frombuf'],
     explanation='The golden files are replaced by the pinned layout written into the contracts: K1 pins every field offset/size/tag of Page, '
                 'Meta, OldMeta, LeafElement, BranchElement, BucketMeta on the real casts (complete Kani harnesses); M1/M2 pin the checksum input '
@@ -47,7 +47,7 @@ PROPS['C15'] = dict(
     level_text='Contracts on the real header code for all inputs (Verus) plus complete Kani layout harnesses over fully symbolic buffers.',
     level_note='Trusted: fnv and sha3 crates, bytes writer stand-in. Any change of field order, width, checksum input or tag constants fails a named obligation.',
     assumptions=[A_TOOLS, A_ARITH, A_FNV, A_VIEWS, A_SEQ],
-    not_covered=['logical contents of golden files with nested buckets / multi-page values (tree layer not under contract)', 'init_file constants until unit O1 is built'],
+    not_covered=['logical contents of golden files with nested buckets / multi-page values (tree layer not under contract)', 'tx_id == 0 of a fresh header (zeroed buffer, never assigned: outside the page-construction model)'],
 )
 
 A_FILE = 'std::fs::File is a stand-in with a ghost I/O trace (prelude/file.rs): seek/write_all/flush/sync_all append one event and may fail nondeterministically; sync_all is modelled with &mut self; a write() is visible through the shared mapping (Linux unified page cache)'
@@ -96,7 +96,7 @@ PROPS['C03'] = dict(
 
 PROPS['C06'] = dict(
     level='proof',
-    units=['guards', 'commit', 'txn'],
+    units=['guards', 'commit', 'txn', 'open'],
     census='ReadOnlyTx',
     explanation='Uncommitted / failed / read-only work leaves no trace: G1 proves on the real bodies that each of the nine mutators (Bucket::{put, delete, create_bucket, '
                 'get_or_create_bucket, delete_bucket}, Tx::{create_bucket, get_or_create_bucket, delete_bucket, commit}) returns ReadOnlyTx on a read-only handle, and that the '
@@ -109,6 +109,22 @@ PROPS['C06'] = dict(
     not_covered=['"a call that returns an error changes nothing" for the bucket-level mutators (tree layer not under contract)', 'later commits behaving as if an abandoned transaction never existed is by X1 (fresh clone) + paper argument'],
 )
 
+PROPS['C16'] = dict(
+    level='proof',
+    units=['open', 'freelist', 'commit'],
+    kani_quick=['frombuf'],
+    explanation='Open options: for EVERY page size and page count the builder accepts. OpenOptions::pagesize returns only for sizes >= 1024 that are multiples of 8 (the '
+                'documented panics are modelled as divergence, so removing a check is a failed postcondition), num_pages only for >= 4; OpenOptions::open calls init_file / DBInner::open '
+                'with exactly the alignment precondition that Kani unit K4 derives for the real page cast (and shows necessary: the harness without it fails). init_file writes four pages with the '
+                'pinned constants and syncs; T1: page-count arithmetic is the exact ceiling for every page size, no overflow; W1(w5): before any data write the file/map covers '
+                'num_pages * pagesize, through any number of 8 MiB growth steps (growth arithmetic proved); resize maps at least the requested size; strict mode: check() sits '
+                'between the synced data pages and the header write and its Err is propagated before the header is written (data-phase exit).',
+    level_text='Arithmetic, alignment and ordering obligations proved for all configurations on the real code; no enumeration of sizes.',
+    level_note='Whole-history equivalence across configurations is not decided (tree layer). mmap_populate reaches only the mmap stub. check() completeness w.r.t. well-formedness is not under contract.',
+    assumptions=[A_TOOLS, A_ARITH, A_FILE, A_VIEWS, A_PAGEMUT, A_SEQ, 'OS page sizes are multiples of 8 (Default for OpenOptions)', 'fs4 allocate / memmap2 map: the map covers every allocated byte (prelude/openfile.rs)'],
+    not_covered=['equality of return values and logical contents of whole histories across configurations', 'that strict mode never rejects a valid commit (needs completeness of TxInner::check)', 'Node::split thresholds (float arithmetic) until unit N4 is built'],
+)
+
 PENDING = 'not claimed yet in this build session: deciding units are not built (see DESIGN section 10)'
 NOT_APPLICABLE = {
     'C04': 'quantifies over thread schedules; Kani has no threads, Verus would need the code rewritten onto its permission types (a model) — DESIGN section 6',
@@ -116,5 +132,5 @@ NOT_APPLICABLE = {
     'C13': 'quantifies over schedules of OS processes and flock semantics; a sequential contract cannot decide mutual exclusion — DESIGN section 6',
     'C14': 'quantifies over client programs and is decided by rustc borrow/Send checking of each program, not by contracts on jammdb bodies — DESIGN section 6',
 }
-for _p in ['C01', 'C05', 'C07', 'C08', 'C16']:
+for _p in ['C01', 'C05', 'C07', 'C08']:
     NOT_APPLICABLE.setdefault(_p, PENDING)
